@@ -60,7 +60,7 @@ func NewEngine(repo string) *Engine {
 		assumed: map[string]bool{}, dropped: map[string]bool{}, strLits: map[string]*Term{}, tagIDs: map[string]int64{}}
 }
 
-var jivaPkgs = []string{"replica", "controller", "rpc", "sync", "util", "controller/rest", "replica/rest", "backend/remote", "app", "types", "replica/rpc", "replica/client", "controller/client"}
+var jivaPkgs = []string{"replica", "controller", "rpc", "sync", "util", "controller/rest", "replica/rest", "backend/remote", "app", "types", "replica/rpc", "replica/client", "controller/client", "backend/dynamic"}
 
 func (e *Engine) Load() error {
 	e.fset = token.NewFileSet()
@@ -789,7 +789,8 @@ func (e *Engine) computeAssignedFields() {
 // verification (they record the calls written in its own body): callees do not change them and they are not
 // part of any frame.
 func localLogKey(k string) bool {
-	return k == "ghost:callN" || k == "ghost:callName" || k == "ghost:callArg0" || k == "ghost:callArg1" || k == "ghost:fvN" || k == "ghost:fvName"
+	return k == "ghost:callN" || k == "ghost:callName" || k == "ghost:callArg0" || k == "ghost:callArg1" || k == "ghost:fvN" || k == "ghost:fvName" ||
+		strings.HasPrefix(k, "ghost:wg$") || strings.HasPrefix(k, "ghost:retlog_") // the result log of `option retlog` is written only by the function under contract itself
 }
 
 func (e *Engine) havocAll(st *State) {
